@@ -51,7 +51,7 @@ func mkLine(id, n int) []byte {
 type c07Write struct {
 	lines   []int  // requested line lengths (symbolic ones resolved at run time): >0 literal, <=0 relative to rem: 0=rem, -1=rem-1, -2=rem+1
 	advance bool   // advance the fake clock by one second before this write
-	fault   string // "", "remove", "rename": done to the active log file before this write
+	fault   string // "", "remove", "rename": done to the active log file before this write; "reopen": Close + OpenRotateFile
 }
 
 func (w c07Write) String() string {
@@ -103,7 +103,7 @@ func c07RunWrites(c *core.Ctx, dir string, maxSize int64, hist []c07Write) {
 		c.Violationf("C07:rotate:open", "OpenRotateFile: %v", err)
 		return
 	}
-	defer rf.Close()
+	defer func() { rf.Close() }()
 	id := 0
 	var written []string
 	rotatedSeen := map[string]string{} // rotated file -> content when first seen
@@ -123,6 +123,18 @@ func c07RunWrites(c *core.Ctx, dir string, maxSize int64, hist []c07Write) {
 			os.Rename(path, filepath.Join(dir, "moved-away"))
 			pos = 0
 			faulted = true
+		case "reopen":
+			// the channel is closed and opened again on the same path (a restart) within the same
+			// second unless the write also advances the clock
+			rf.Close()
+			rf, err = file.OpenRotateFile(path, 0600, maxSize)
+			if err != nil {
+				c.Violationf("C07:rotate:open", "%s: reopening: %v", desc(), err)
+				return
+			}
+			if pos >= maxSize {
+				pos = 0 // a full file is rotated when it is opened
+			}
 		}
 		var batch []byte
 		for _, ll := range w.lines {
@@ -288,7 +300,7 @@ func runC07(c *core.Ctx) {
 								rec(append(append([]c07Write(nil), h...), c07Write{lines: b, advance: adv}), faultUsed)
 							}
 							if !faultUsed && len(h) <= 2 && len(b) == 1 {
-								for _, f := range []string{"remove", "rename"} {
+								for _, f := range []string{"remove", "rename", "reopen"} {
 									rec(append(append([]c07Write(nil), h...), c07Write{lines: b, fault: f}), true)
 								}
 							}
